@@ -2,7 +2,7 @@
    The driver writes cases_<k>.v files that apply [run_cases] to a literal case list. *)
 From HbsLms Require Import Base.Bytes Model.Consts Model.Winternitz Model.Counter Model.KeyBlob.
 From HbsLms Require Import Model.Lmots Model.Lms Model.Derive Model.Codec Model.Hss Model.SignCore Model.Aux Model.FastVerify.
-From HbsLms Require Import Gen.Generated Exec.Sha256 Spec.Rfc8554Ots Spec.Rfc8554.
+From HbsLms Require Import Gen.Generated Exec.Sha256 Exec.Toy Spec.Rfc8554Ots Spec.Rfc8554.
 
 Local Open Scope N_scope.
 
@@ -45,6 +45,9 @@ Inductive case :=
 
 Section WithK.
 Variable K : consts.
+(* the hash family the cases were recorded with: output length -> function
+   ([sha256_n] for the library's SHA-256 hashers, [toy_n] for the harness's toy hasher) *)
+Variable Hf : nat -> bytes -> bytes.
 
 Definition model_ots_param (n : nat) (ty : N) : res (list N) :=
   match ots_of_type K n ty with
@@ -61,7 +64,7 @@ Definition model_digits (n : nat) (ty : N) (q : bytes) : res bytes :=
   | None => Err
   end.
 
-Definition Hn (n : nat) : bytes -> bytes := sha256_n n.
+Definition Hn (n : nat) : bytes -> bytes := Hf n.
 
 Fixpoint params_of_variants (n : nat) (vs : list (N * N)) : option (list (otsp * lmsp)) :=
   match vs with
